@@ -188,7 +188,7 @@ class SessionModel(object):
             out.append((v.oid, s))
         return out
 
-    def setup(self, state_name, protocol='live', **over):
+    def setup(self, state_name, protocol='live', hold_partition=None, **over):
         """States with the given FSM state.  protocol: 'none' (never connected), 'live'
         (current connection, wired through buildProtocol), 'stale' (a closed earlier one)."""
         st = self.fresh()
@@ -245,7 +245,21 @@ class SessionModel(object):
             s.flags = set()
             s.counter += 1
             s.base = s.counter
-            res.append((poid, s))
+            if hold_partition is None:
+                hold_partition = state_name in ('OpenConfirm', 'Established')
+            parts = self._hold_partitions(s) if hold_partition else None
+            if parts:
+                # session states: the hold time is what a negotiation left, 0 or >= 3 (1 and 2 are refused: C01
+                # open-acceptance rule), and the keepalive period is the function of it that the negotiation
+                # computes - a test of either of the two then decides the other one as well
+                for k_, (hiv, kiv) in enumerate(parts):
+                    sp = s.fork() if k_ < len(parts) - 1 else s
+                    sp.cons['fsm.hold_time'] = (hiv[0], hiv[1], frozenset())
+                    sp.cons['fsm.keep_alive_time'] = (kiv[0], kiv[1], frozenset())
+                    sp.flags = set(sp.flags) | {'regime:hold=%s' % ('0' if hiv[1] == 0 else '>0')}
+                    res.append((poid, sp))
+            else:
+                res.append((poid, s))
             if protocol == 'stale':
                 # the earlier connection's close may already have been reported (estab_protocol cleared by
                 # connection_closed) while the FSM still points at the old protocol object
@@ -254,6 +268,33 @@ class SessionModel(object):
                 s2.flags = set(s2.flags) | {'regime:estab-cleared'}
                 res.append((poid, s2))
         return res
+
+    def _hold_partitions(self, s):
+        """[(hold interval, keepalive-period interval)] for H = 0 and H >= 3, the period evaluated (interval
+        arithmetic) from the one assignment `keep_alive_time = f(hold_time)` of the package; None when that
+        assignment is not found or f uses something else (the two values then stay independent)."""
+        if getattr(self, '_kat_expr', 0) == 0:
+            import ast as _ast
+            self._kat_expr = None
+            cands = []
+            for f in self.prog.all_functions():
+                for n in _ast.walk(f.node):
+                    if isinstance(n, _ast.Assign) and any(isinstance(t, _ast.Attribute) and t.attr == 'keep_alive_time'
+                                                          for t in n.targets) and f.name != '__init__' and \
+                            any(isinstance(x, _ast.Attribute) and x.attr == 'hold_time' for x in _ast.walk(n.value)):
+                        cands.append((f, n.value))
+            if len(cands) == 1:
+                self._kat_expr = cands[0]
+        if self._kat_expr is None:
+            return None
+        f, expr = self._kat_expr
+        out = []
+        for hiv in ((0, 0), (3, 65535)):
+            kiv = _interval_of(self.prog, f, expr, hiv)
+            if kiv is None:
+                return None
+            out.append((hiv, kiv))
+        return out
 
     MODELLED = {'state', 'protocol', 'bgp_peering', 'fsm', 'estab_protocol', 'handler', 'factory',
                 'transport', 'disconnected', '_receive_buffer', 'hold_time', 'keep_alive_time',
@@ -438,3 +479,43 @@ def cval(v):
 
 def cdesc(v):
     return v.desc() if hasattr(v, 'desc') else repr(v)
+
+
+def _interval_of(prog, f, e, hiv):
+    """Interval of an arithmetic expression over `<x>.hold_time` in hiv; None when it uses anything else."""
+    import ast as _ast
+    import math
+    if isinstance(e, _ast.Attribute) and e.attr == 'hold_time' and 'CONF' not in _ast.dump(e) and 'cfg' not in _ast.dump(e):
+        return hiv
+    c = prog.try_fold(e, f.module, f.cls)
+    if isinstance(c, (int, float)) and not isinstance(c, bool):
+        return (c, c)
+    if isinstance(e, _ast.BinOp):
+        a, b = _interval_of(prog, f, e.left, hiv), _interval_of(prog, f, e.right, hiv)
+        if a is None or b is None:
+            return None
+        if isinstance(e.op, (_ast.Div, _ast.FloorDiv)):
+            if b[0] != b[1] or b[0] <= 0:
+                return None
+            if isinstance(e.op, _ast.Div):
+                return (a[0] / b[0], a[1] / b[0])
+            return (a[0] // b[0], a[1] // b[0])
+        if isinstance(e.op, _ast.Mult):
+            v = [a[0] * b[0], a[0] * b[1], a[1] * b[0], a[1] * b[1]]
+            return (min(v), max(v))
+        if isinstance(e.op, _ast.Add):
+            return (a[0] + b[0], a[1] + b[1])
+        if isinstance(e.op, _ast.Sub):
+            return (a[0] - b[1], a[1] - b[0])
+        return None
+    if isinstance(e, _ast.Call) and isinstance(e.func, _ast.Name) and not e.keywords:
+        args = [_interval_of(prog, f, a, hiv) for a in e.args]
+        if any(a is None for a in args) or not args:
+            return None
+        if e.func.id == 'max':
+            return (max(a[0] for a in args), max(a[1] for a in args))
+        if e.func.id == 'min':
+            return (min(a[0] for a in args), min(a[1] for a in args))
+        if e.func.id in ('int', 'float', 'round') and len(args) == 1:
+            return (math.floor(args[0][0]), math.ceil(args[0][1])) if e.func.id != 'float' else args[0]
+    return None
